@@ -7,7 +7,11 @@ use serde_json::{json, Value};
 
 use crate::{core::*, prn::*, srch::{split_lines, strip, Term}};
 
-const PATTERNS_QUICK: &[&str] = &["a", "b", "é", "", "a*", "$", "^", "\\b", ".", "ab", "a|b", "[^a]", "\\xFF", "(?-u:\\xFF)"];
+const PATTERNS_QUICK: &[&str] = &["a", "b", "é", "", "a*", "$", "^", "\\b", ".", "ab", "a|b", "[^a]", "\\xFF", "(?-u:\\xFF)",
+    // byte-oriented matches that cut a multi-byte character of a line that is
+    // valid UTF-8 as a whole
+    "(?-u:a.)", "(?-u:\\xC3)", "(?-u:.b)",
+];
 const PATTERNS_MORE: &[&str] = &[
     "\\B", "a+", "b?", "^a", "a$", "^$", "\\w", "\\W", "\\s", "\\S", "..", ".*", "é|a", "a.b", "(a)(b)?", "x*", "[ab]+", "\\r", "a\\r?", "(?i)A", ".$", "^.",
 ];
